@@ -27,6 +27,9 @@ PROPS = {
                 coq=['props/C03.vo'], tags=[3],
                 streams=[('w1', 'S3', 50, 60), ('w2', 'S3', 20, 60)],
                 configs=['dbg', 'rel'], need=['probe', 'create']),
+    'C05': dict(title='Queries act on exactly the archetypes whose component set satisfies them',
+                coq=['props/C05.vo'], tags=[5], macro=dict(cases=150, stress=False),
+                streams=[('w1', 'S5', 20, 50), ('w2', 'S5', 10, 50)], configs=['dbg'], need=['find', 'iter']),
     'C08': dict(title='No handle is ever issued twice within a world',
                 coq=['props/C08.vo'], tags=[8],
                 streams=[('w1', 'S7', 40, 60), ('w1', 'S1', 20, 60), ('w2', 'S7', 20, 60)],
@@ -52,6 +55,13 @@ PROPS = {
                 streams=[('w1', 'H1', 40, 60), ('w2', 'H1', 40, 60)],
                 configs=['dbg', 'rel'], need=['conv']),
 }
+
+PROPS['C15'] = dict(title='Archetype and component ids follow the discriminant rule and are unique',
+                    coq=['props/C15.vo'], tags=[15], macro=dict(cases=200, stress=True),
+                    streams=[('w2', 'H1', 10, 40)], configs=['dbg'], need=['conv'])
+PROPS['C16'] = dict(title='#[cfg]-disabled archetypes, components and query parameters behave as absent',
+                    coq=['props/C16.vo'], tags=[16], macro=dict(cases=200, stress=False),
+                    streams=[], configs=['dbg'], need=[])
 
 THOROUGH_CONFIGS = ['dbg', 'rel', 'dbg-ev', 'dbg-wrap', 'dbg-all', 'rel-plain', 'rel-ev', 'rel-all']
 
